@@ -16,6 +16,7 @@ COV = os.path.join(HERE, 'build', '_cov')
 def main():
     props = sys.argv[1:] or ['C%02d' % i for i in range(1, 21) if i not in (5, 8)]
     tier = os.environ.get('COV_TIER', 'quick')
+    name = tier if not sys.argv[1:] else 'subset'
     env = dict(os.environ, VERIF_COV='1', VERIF_BUILD=COV)
     if not os.environ.get('COV_KEEP'):
         for f in glob.glob(os.path.join(COV, '*', 'obj', '*.gcda')):
@@ -52,15 +53,15 @@ def main():
         out[rel] = dict(lines=n, covered=c, uncovered_lines=sorted(k for k, v in lines[rel].items() if v == 0),
                         functions_never_entered=sorted(k for k, v in funcs[rel].items() if v == 0))
     os.makedirs(os.path.join(HERE, 'coverage'), exist_ok=True)
-    with open(os.path.join(HERE, 'coverage', tier + '.json'), 'w') as f:
+    with open(os.path.join(HERE, 'coverage', name + '.json'), 'w') as f:
         json.dump(dict(properties=props, tier=tier, total_lines=tot, covered_lines=cov, files=out), f, indent=0)
-    with open(os.path.join(HERE, 'coverage', tier + '.txt'), 'w') as f:
+    with open(os.path.join(HERE, 'coverage', name + '.txt'), 'w') as f:
         f.write('properties: %s  tier: %s\nlines %d covered %d (%.1f%%)\n\n' % (' '.join(props), tier, tot, cov, 100.0 * cov / max(1, tot)))
         for rel, d in sorted(out.items(), key=lambda kv: -(kv[1]['lines'] - kv[1]['covered'])):
             if d['lines'] == d['covered']:
                 continue
             f.write('%-44s %5d/%5d  never entered: %s\n' % (rel, d['covered'], d['lines'], ' '.join(d['functions_never_entered'])))
-    print('lines %d covered %d (%.1f%%) -> coverage/%s.txt' % (tot, cov, 100.0 * cov / max(1, tot), tier))
+    print('lines %d covered %d (%.1f%%) -> coverage/%s.txt' % (tot, cov, 100.0 * cov / max(1, tot), name))
 
 
 if __name__ == '__main__':
